@@ -26,6 +26,84 @@ def Reply.indices : Reply → List Nat
   | .complete => []
   | .flows lo hi => (List.range (hi - lo)).map (· + lo)
 
+/-! Layer 0: gateway decisions. `nonDefault` is the gateway's outgoing list with the default flow removed
+(order preserved), each with the outcome of its condition as reported by the probing token. -/
+
+inductive Decision where
+  | take (flow : String)
+  | error
+deriving Repr, DecidableEq
+
+/-- gateway_exclusive.go, `gatewayProbingReport` branch: the first reported index wins, else the default,
+else `ExclusiveNoEffectiveSequenceFlows` -/
+def xgDecide (nonDefault : List (String × Bool)) (dflt : Option String) : Decision :=
+  match (nonDefault.filter (·.2)).head? with
+  | some (fl, _) => .take fl
+  | none =>
+    match dflt with
+    | some d => .take d
+    | none => .error
+
+/-- gateway_inclusive.go: all reported flows, else the default alone, else (empty list) the error trace -/
+def igDecide (nonDefault : List (String × Bool)) (dflt : Option String) : List String :=
+  match (nonDefault.filter (·.2)).map (·.1) with
+  | [] => (dflt.map ([·])).getD []
+  | fls => fls
+
+/-! Layer 1: the exclusive gateway actor (gateway_exclusive.go `run`): per token a two-phase probe.
+Messages of token `t`: `na t` (a `nextActionMessage`; the first one is answered with a probe action, the
+second one carries the reply channel for the decision) and `report t results` (the probing report).
+The report and the second `na` may arrive in either order; a report that finds no reply channel yet is
+re-queued at the back of the inbox. -/
+
+inductive XMsg where
+  | na (tok : Nat)
+  | report (tok : Nat) (results : List (String × Bool))
+deriving Repr
+
+inductive XOut where
+  | probe (tok : Nat)
+  | reply (tok : Nat) (d : Decision)       -- `.error` = error trace, no reply sent
+deriving Repr, DecidableEq
+
+def XMsg.tok : XMsg → Nat
+  | .na t => t
+  | .report t _ => t
+
+def XOut.tok : XOut → Nat
+  | .probe t => t
+  | .reply t _ => t
+
+structure XG where
+  dflt : Option String
+  /-- `probing` map: token ↦ reply channel present? -/
+  probing : List (Nat × Bool) := []
+deriving Repr
+
+def XG.lookup (g : XG) (t : Nat) : Option Bool := (g.probing.find? (·.1 == t)).map (·.2)
+def XG.erase (g : XG) (t : Nat) : XG := { g with probing := g.probing.filter (·.1 != t) }
+def XG.put (g : XG) (t : Nat) (b : Bool) : XG := { (g.erase t) with probing := (g.erase t).probing ++ [(t, b)] }
+
+/-- handle one message; returns outputs and messages re-queued at the back of the inbox -/
+def XG.step (g : XG) : XMsg → XG × List XOut × List XMsg
+  | .na t =>
+    match g.lookup t with
+    | some _ => (g.put t true, [], [])
+    | none => (g.put t false, [.probe t], [])
+  | .report t res =>
+    match g.lookup t with
+    | some true => (g.erase t, [.reply t (xgDecide res g.dflt)], [])
+    | some false => (g, [], [.report t res])
+    | none => (g, [], [])                     -- error trace "probing[...] is to be present"
+
+/-- run an inbox to exhaustion (fuel bounds the re-queues) -/
+def XG.run (g : XG) : Nat → List XMsg → List XOut → XG × List XOut
+  | 0, _, acc => (g, acc)
+  | _, [], acc => (g, acc)
+  | fuel + 1, m :: inbox, acc =>
+    let (g', outs, back) := g.step m
+    XG.run g' fuel (inbox ++ back) (acc ++ outs)
+
 /-! Layer 1: the parallel gateway actor -/
 
 /-- gateway_parallel.go: `reportedIncomingFlows`, `awaitingActions` (token ids in arrival order) -/
